@@ -10,6 +10,7 @@ import (
 	"go/token"
 	"go/types"
 	"math"
+	"math/big"
 	"os"
 	"sort"
 	"strings"
@@ -173,6 +174,9 @@ type Exec struct {
 	traceOut []string
 	inInit   bool
 	deadline time.Time
+	relaxed  bool // floats are reals with rounding-error terms (see relaxed.go)
+	opaque    bool // structure-only: float operations are uninterpreted functions
+	relaxedUF bool // rounding error as an uninterpreted function of the exact result (keeps repeated computations equal) instead of a fresh constant per operation
 }
 
 var dumpCtr int
@@ -225,6 +229,9 @@ func (e *Exec) nmB(b Bool) Bool {
 	return b
 }
 func (e *Exec) nmF(f Float) Float {
+	if e.relaxed {
+		return e.nmR(f)
+	}
 	if f.IsC || len(f.Sym) < nameThreshold {
 		return f
 	}
@@ -378,6 +385,48 @@ func (e *Exec) decideAux(c Bool, aux uint64) bool {
 	e.trace = append(e.trace, Decision{Val: true, Aux: aux})
 	e.assert(c)
 	return true
+}
+
+// parseReal parses z3/cvc5 model values of sort Real: 12.0, (- 3.5), (/ 1.0 3.0), (- (/ 1 3)).
+func parseReal(s string) (*big.Rat, bool) {
+	toks := tokenize(s)
+	pos := 0
+	var parse func() (*big.Rat, bool)
+	parse = func() (*big.Rat, bool) {
+		if pos >= len(toks) {
+			return nil, false
+		}
+		t := toks[pos]
+		pos++
+		if t != "(" {
+			r, ok := new(big.Rat).SetString(t)
+			return r, ok
+		}
+		if pos >= len(toks) {
+			return nil, false
+		}
+		op := toks[pos]
+		pos++
+		var args []*big.Rat
+		for pos < len(toks) && toks[pos] != ")" {
+			a, ok := parse()
+			if !ok {
+				return nil, false
+			}
+			args = append(args, a)
+		}
+		pos++
+		switch {
+		case op == "-" && len(args) == 1:
+			return new(big.Rat).Neg(args[0]), true
+		case op == "-" && len(args) == 2:
+			return new(big.Rat).Sub(args[0], args[1]), true
+		case op == "/" && len(args) == 2 && args[1].Sign() != 0:
+			return new(big.Rat).Quo(args[0], args[1]), true
+		}
+		return nil, false
+	}
+	return parse()
 }
 
 func parseBV(s string) (uint64, bool) {
@@ -544,6 +593,11 @@ func (e *Exec) decodeInputs(model map[string]string) map[string]string {
 		case "float64":
 			if v, ok := parseBV(model[in.Sym]); ok {
 				out[in.Name] = fmt.Sprintf("0x%016x", v)
+			}
+		case "real":
+			if r, ok := parseReal(model[in.Sym]); ok {
+				f, _ := r.Float64()
+				out[in.Name] = fmt.Sprintf("0x%016x", math.Float64bits(f))
 			}
 		case "bool":
 			out[in.Name] = model[in.Sym]
@@ -1037,7 +1091,8 @@ var pureCallees = map[string]bool{
 
 var pureHarnessPrims = map[string]bool{
 	"vW": true, "vWB": true, "vWAdd": true, "vWSub": true, "vWShl": true, "vWShr": true, "vWLt": true, "vWLe": true, "vWEq": true,
-	"vWFits64": true, "vWTo64": true, "vKnown": true, "vCase": true,
+	"vWFits64": true, "vWTo64": true, "vKnown": true, "vCase": true, "vFloatRange": true,
+	"vR": true, "vRI": true, "vRAdd": true, "vRSub": true, "vRMul": true, "vRDiv": true, "vRLt": true, "vRLe": true,
 }
 
 func (e *Exec) pureCall(c *ssa.CallCommon) bool {
@@ -1713,7 +1768,7 @@ func (e *Exec) merge(g Bool, a, b Value) (Value, bool) {
 		if !ok {
 			return nil, false
 		}
-		return e.nmF(fIte(g, x, y)), true
+		return e.fIteX(g, x, y), true
 	case Wide:
 		y, ok := b.(Wide)
 		if !ok {
@@ -2188,7 +2243,7 @@ func (e *Exec) unop(fr *Frame, i *ssa.UnOp) Value {
 		case Int:
 			return e.nmI(iNeg(v))
 		case Float:
-			return fNeg(v)
+			return e.fNegX(v)
 		}
 	case token.XOR:
 		return iNot(x.(Int))
@@ -2236,9 +2291,9 @@ func (e *Exec) binop(op token.Token, x, y Value, xt, yt types.Type) Value {
 		b := y.(Float)
 		switch op {
 		case token.ADD, token.SUB, token.MUL, token.QUO:
-			return e.nmF(e.floatBin(op.String(), a, b))
+			return e.floatBin(op.String(), a, b)
 		case token.EQL, token.NEQ, token.LSS, token.LEQ, token.GTR, token.GEQ:
-			return e.nmB(fCmp(op.String(), a, b))
+			return e.fCmpX(op.String(), a, b)
 		}
 	case Bool:
 		b := y.(Bool)
@@ -2351,7 +2406,7 @@ func (e *Exec) valEq(x, y Value) Bool {
 	case Int:
 		return iCmp("==", a, y.(Int))
 	case Float:
-		return fCmp("==", a, y.(Float))
+		return e.fCmpX("==", a, y.(Float))
 	case Bool:
 		return bEq(a, y.(Bool))
 	case Str:
@@ -2372,7 +2427,7 @@ func (e *Exec) convert(x Value, from, to types.Type) Value {
 			return iConv(v, w, s)
 		}
 		if isFloat(to) {
-			return iToF(v)
+			return e.iToFX(v)
 		}
 		if b, ok := to.Underlying().(*types.Basic); ok && b.Info()&types.IsString != 0 {
 			e.unsupported("int to string conversion")
@@ -2394,7 +2449,7 @@ func (e *Exec) convert(x Value, from, to types.Type) Value {
 					return n
 				}
 			}
-			return e.nmI(fToI(v, w, s))
+			return e.fToIX(v, w, s)
 		}
 		if isFloat(to) {
 			if b, ok := to.Underlying().(*types.Basic); ok && b.Kind() == types.Float32 {
@@ -2418,8 +2473,7 @@ func (e *Exec) convert(x Value, from, to types.Type) Value {
 
 // floatBin keeps power-of-two scaling cheap and tracks exact provenance.
 func (e *Exec) floatBin(op string, a, b Float) Float {
-	r := fBin(op, a, b)
-	return r
+	return e.fBinX(op, a, b)
 }
 
 // ---------- maps
